@@ -169,7 +169,7 @@ def run(ctx):
         "analyzer only by the differential below",
         "harness/src/dom_combloop.rs (Veryl rendering `{(^{reads}) repeat W}`, independent bit-level reference) + checks/c14.py"]
     ctx.cov["rule"] = ("random designs of the model language (part selects biased to boundaries, feed-forward and feedback "
-                       "reads, if/else nesting ≤ 2, 0–2 children incl. port-slicing children, 1–2 instances) plus 1/8 opaque "
+                       "reads, if/else nesting ≤ 2, 0–2 children incl. port-slicing children, 1–2 instances), 1/3 with a retained-state always_comb (variable assigned on some paths only, nested ifs with/without else in either branch, self-reads y=f(y,…), read-after-write inside branches, conditions reading y, cycle closed through an assign), plus 1/8 opaque "
                        "stream ($sv black boxes, inout ports, recursive functions); real analyzer through post_pass2 vs "
                        "detector model (correspondence) and vs bit-level reference (oracle, computed twice: Rust and Lean); "
                        "distinct = distinct designs")
